@@ -56,6 +56,7 @@ def run(cfg, w):
     h = cfg["h"]
     if h == "in_to_stock_to_in":
         I = w.arr("in", shape)
+        w.set_scale(I)
         a = dsm.build_stock("idsm", dims, lifetime=lt(), inflow=I)
         a.compute()
         s = dsm.build_stock("sdsm_" + cfg["solver"], dims, lifetime=lt(), stock=a.stock.values)
@@ -68,6 +69,7 @@ def run(cfg, w):
         return
     if h == "stock_to_in_to_stock":
         S = w.arr("st", shape)
+        w.set_scale(S)
         s = dsm.build_stock("sdsm_" + cfg["solver"], dims, lifetime=lt(), stock=S)
         s.compute()
         a = dsm.build_stock("idsm", dims, lifetime=lt(), inflow=s.inflow.values)
@@ -78,6 +80,7 @@ def run(cfg, w):
         return
     if h == "solvers_agree":
         S = w.arr("st", shape)
+        w.set_scale(S)
         m = dsm.build_stock("sdsm_manual", dims, lifetime=lt(), stock=S)
         m.compute()
         l = dsm.build_stock("sdsm_lapack", dims, lifetime=lt(), stock=S)
